@@ -7,7 +7,7 @@ import random as _pyrandom
 from pvc.contract import Contract
 from pvc.sym import And, Or, Not, Implies, eq, lt, le, is_sym, smin, smax
 from . import fx
-from .net import Net, build_dcop, global_cost, HandlerRaised, get_spec
+from .net import Net, build_dcop, global_cost, HandlerRaised, get_spec, warm_up
 
 SPECS = {
     "chain3": dict(vars={"x1": [0, 1], "x2": ["a", "b"], "x3": [7, 0]}, cons=[["x1", "x2"], ["x2", "x3"]]),
@@ -37,6 +37,8 @@ def h_dpop(env):
     if env.symbolic:
         from pvc.models import model_float
         DP.float = model_float
+    if p.get("warm_up"):
+        warm_up(env, "dpop", mode, spec, {})
     variables, cons, tabs, varcost = build_dcop(env, spec)
     try:
         net = Net(env, "dpop", mode, variables, cons, {})
@@ -100,6 +102,7 @@ def _shapes(tier, prop=None):
         dict(spec="star", modes=["max"], policy="favor:x3", start_order="rev"),
         dict(spec="triangle", modes=["min"], policy="starve:x1", interleave_start=True, between=2),
     ]
+    q += [dict(spec="chain3", modes=["min"], warm_up=True), dict(spec="triangle", modes=["max"], warm_up=True)]
     # 4-6 variables: too many paths for the exact exploration, decided by the sampled native pass (several parts in parallel)
     big = [dict(spec="rand4", sample_only=True, sample_factor=4, sample_part=0, policy="random", sched_seed=1),
            dict(spec="rand5", sample_only=True, sample_factor=4, sample_part=1, inst_to=60),
